@@ -390,6 +390,20 @@ def run(ctx):
     distinct = set()
     forced = ["mock", "simple", "mock", "mock"]
     pair_checked = 0
+    # primaries offered with event id == max_events must be rejected with the documented error
+    # (track_counters has max_events entries: accepting the id indexes one past the array)
+    for problem in ("simple", "mock"):
+        lines = steplog.script(problem, [("gamma", 1.0, [0.0, 0.0, 0.0], [1.0, 0.0, 0.0], 0, 2),
+                                         ("gamma", 1.0, [0.0, 0.0, 0.0], [1.0, 0.0, 0.0], 3, 1)],
+                               slots=4, maxevents=3, maxsteps=50)
+        rc, out = vlib.run_lines([exe], lines)
+        verdict = next((l for l in out if l.startswith("R ")), "R <none> rc=%d" % rc)
+        ctx.coverage.setdefault("event_id_bound", []).append(verdict[:120])
+        if not (verdict.startswith("R exception") and "exceeds max_events" in verdict):
+            ctx.violation("event-id-equal-max-events-accepted",
+                          "a primary with event id == max_events (3) was not rejected with "
+                          "'event number 3 exceeds max_events=3': " + verdict[:160],
+                          {"harness": "harness/stepping.cc", "script": lines, "result": verdict})
     tc_runs = tracking_cut_scenarios()
     tc_cover = {"anti-inflight": 0, "anti-at-init": 0, "matter-inflight": 0, "matter-at-init": 0}
     for i in range(-len(tc_runs), n_runs):
